@@ -1066,6 +1066,50 @@ def _fold_outcomes(ctx: Ctx, fname: str) -> Tuple[FunctionInfo, Term, List[Tuple
     return fc, call, outs
 
 
+# the Python function that computes each built-in on constants (the HPL function of the same meaning): what a fold
+# of F applied to literal arguments must call, with the arguments in order.  Confirmed against docs/lang.md.
+FOLD_IMPL = {
+    'abs': {'abs'}, 'bool': {'bool'}, 'int': {'int'}, 'float': {'float'}, 'str': {'str'},
+    'sqrt': {'math.sqrt'}, 'ceil': {'math.ceil'}, 'floor': {'math.floor'},
+    'sin': {'math.sin'}, 'cos': {'math.cos'}, 'tan': {'math.tan'}, 'asin': {'math.asin'}, 'acos': {'math.acos'}, 'atan': {'math.atan'},
+    'atan2': {'math.atan2'}, 'deg': {'math.degrees'}, 'rad': {'math.radians'}, 'log': {'math.log', 'math.log10'}, 'gcd': {'math.gcd'},
+}
+
+
+def _fold_impl_check(r: RuleResult, fname: str, call: Term, v: Term, o: Outcome, where: str):
+    """the folded value of a scalar function is impl(arg0.value, arg1.value, ...) of the simplified arguments, in order"""
+    from .terms import Template, flat_guards
+    impls = FOLD_IMPL.get(fname)
+    if impls is None:
+        return
+    val = v.get('value')
+    if isinstance(val, Template) and len(val.parts) == 1 and hasattr(val.parts[0], 'value'):
+        val = val.parts[0].value    # str(x) as an f-string
+        if fname == 'str':
+            val = Call(Ext('str'), (val,))
+    if not (isinstance(val, Call) and isinstance(val.func, Ext)):
+        return
+    fn = val.func.name
+    if fn not in impls:
+        r.fail(f'{fname}:implementation', f'{fname}() applied to constants is folded with {fn}(), expected {sorted(impls)}: the branch for another function is taken', where, sorted(impls), fn)
+        return
+
+    def arg_index(t: Term) -> Optional[int]:
+        # _simplify(call.arguments[i]).value
+        if isinstance(t, Attr) and t.name == 'value' and isinstance(t.base, Call) and isinstance(t.base.func, FuncRef) and len(t.base.args) == 1:
+            a = t.base.args[0]
+            if type(a).__name__ == 'Sub' and a.base == Attr(call, 'arguments') and isinstance(a.index, Const):
+                return a.index.value
+        return None
+    idx = [arg_index(a) for a in val.args]
+    if all(i is not None for i in idx) and idx != list(range(len(idx))):
+        r.fail(f'{fname}:argument-order', f'{fname}() is folded as {fn}({", ".join("arg%d" % i for i in idx)}): the arguments are not passed in order', where)
+    if fn == 'math.log10':
+        base10 = any(pol and isinstance(g, Op) and g.op == '==' and g.args[1] == Const(10) and arg_index(g.args[0]) == 1 for g, pol in flat_guards(o.guards))
+        if not base10:
+            r.fail('log:base', 'log(x, b) is folded with math.log10 on a path that has not established b == 10', where)
+
+
 def R10(ctx: Ctx) -> RuleResult:
     r = RuleResult('R10', 'result kind of function folding: each built-in function folds to a literal of its declared result type (HplLiteral.number / boolean / string), to the call itself, or to a rebuilt expression; an argument is handed back as the result only where its type is known to be within the result type')
     from .rules_tables import function_rows
@@ -1101,6 +1145,7 @@ def R10(ctx: Ctx) -> RuleResult:
                         r.notes.append(f'{fname}: literal built without the number/boolean/string factories')
                     continue
                 kind = _LIT_KIND[kinds[-1]]
+                _fold_impl_check(r, fname, call, v, o, where)
                 if kind in rts:
                     r.ok(f'{fname}: folds to a {kind} literal')
                 else:
